@@ -101,7 +101,7 @@ Proof.
       try contradiction; [exact HP'|].
     destruct (String.eqb id' id) eqn:E; [|exact I].
     apply String.eqb_eq in E. subst id'.
-    rewrite (new_port_as_update (mk_cfg true true true)). unfold sport_of_json. apply port_rel_update.
+    rewrite (new_port_as_update cfg_fixed). unfold sport_of_json. apply port_rel_update.
     + reflexivity.
     + unfold get. destruct (lookup "value" a); reflexivity.
     + intros v' Hv. unfold aux_ok in Haux. rewrite Hv in Haux.
